@@ -38,6 +38,7 @@ type Exec struct {
 	// PanicIsEvent: record panics as events and stop the path
 	WatchEdges map[edge]bool
 	inInitGlobal bool
+	MonoOf       map[*Sym]*FloatV // integer symbols that are conversions of a float value (keeps its normal form)
 	LazyPtr    bool // materialise unknown pointer fields on first load
 	// WidenAtEntry: explore, at every loop entry, one generic iteration (heap forgotten, loop phis unknown) that
 	// subsumes all iterations; concrete unrolling beyond Unroll visits is then simply cut. Keeps path counts linear.
@@ -970,10 +971,20 @@ func floatOp(op token.Token, a, b *FloatV) Val {
 		}
 	}
 	ea, eb := floatExpr(a), floatExpr(b)
+	r := &FloatV{}
 	if ea != "" && eb != "" {
-		return &FloatV{Expr: "(" + ea + op.String() + eb + ")"}
+		r.Expr = "(" + ea + op.String() + eb + ")"
 	}
-	return &FloatV{}
+	ma, mb := a.mono(), b.mono()
+	if ma != nil && mb != nil {
+		switch op {
+		case token.MUL:
+			r.Mono = monoMul(ma, mb, 1)
+		case token.QUO:
+			r.Mono = monoMul(ma, mb, -1)
+		}
+	}
+	return r
 }
 
 func floatExpr(f *FloatV) string {
@@ -1205,6 +1216,12 @@ func (ex *Exec) convert(fr *Frame, st *State, x *ssa.Convert) Val {
 			if iv.Expr != "" {
 				r = mkSym(ex.syms.Get("int("+iv.Expr+")", w, s))
 			}
+			if iv.Mono != nil {
+				if ex.MonoOf == nil {
+					ex.MonoOf = map[*Sym]*FloatV{}
+				}
+				ex.MonoOf[r.T.Syms[0]] = iv
+			}
 			return r
 		}
 		return ex.topOf(st, to, "conv")
@@ -1216,7 +1233,7 @@ func (ex *Exec) convert(fr *Frame, st *State, x *ssa.Convert) Val {
 				if c, ok := st.ConstOf(iv); ok {
 					return &FloatV{Known: true, F: float64(c)}
 				}
-				return &FloatV{Expr: "float(" + st.ident(iv) + ")"}
+				return &FloatV{Expr: "float(" + st.ident(iv) + ")", Mono: monoOfAtom(st.ident(iv))}
 			case *FloatV:
 				return iv
 			}
